@@ -83,8 +83,10 @@ def rule_loader_paths(u, rep, want=("LEAK", "RAW", "FILL", "ARG", "CAP")):
             backend_written = None
             released = False
             raw_unowned = None
-            read_idx = fill_idx = deser_idx = None
-            file_len = None
+            read_idx = deser_idx = None
+            file_len = read_base = None
+            fills = []
+            zeroed_whole = False
             for i, e in enumerate(evs):
                 if e[0] == "Call":
                     nm = e[2]
@@ -95,25 +97,14 @@ def rule_loader_paths(u, rep, want=("LEAK", "RAW", "FILL", "ARG", "CAP")):
                         raw_unowned = None
                     if nm == "drop_in_place" and any(mentions(a, lambda x: is_uninit_field(x, bi)) for a in args):
                         released = True
-                    if nm == "read_exact" and e[1] == "std":
-                        read_idx = i
-                        copying = True
-                        # read target: bytes[..file_len]
-                        for a in args:
-                            if isinstance(a, tuple) and a and a[0] == "call" and a[1] == "index_mut":
-                                rng = a[2][1]
-                                if isinstance(rng, tuple) and rng[0] == "adt" and rng[1].endswith("RangeTo"):
-                                    file_len = dict(rng[3]).get(0)
-                    if nm == "fill":
-                        ok = len(args) == 2 and args[1] == C(0)
-                        tgt = args[0] if args else None
-                        if ok and isinstance(tgt, tuple) and tgt and tgt[0] == "call" and tgt[1] == "index_mut":
-                            rng = tgt[2][1]
-                            ok = isinstance(rng, tuple) and rng[0] == "adt" and rng[1].endswith("RangeFrom") and (file_len is None or dict(rng[3]).get(0) == file_len)
-                        else:
-                            ok = False
-                        if ok:
-                            fill_idx = i
+                    if nm in ("alloc_zeroed", "zeroed") and e[1] in ("alloc", "core"):
+                        zeroed_whole = True
+                    if nm == "fill" and len(args) == 2 and args[1] == C(0):
+                        tgt = args[0]
+                        if isinstance(tgt, tuple) and tgt and tgt[0] == "index" and isinstance(tgt[2], tuple) and tgt[2][0] == "adt" and tgt[2][1].endswith("::RangeFrom"):
+                            fills.append((i, tgt[1], dict(tgt[2][3]).get(0)))
+                        elif read_idx is None:
+                            fills.append((i, tgt, None))      # the whole buffer, before anything is read into it
                     if nm == "deserialize_eps":
                         deser_idx = i
                         if "ARG" in want:
@@ -122,6 +113,18 @@ def rule_loader_paths(u, rep, want=("LEAK", "RAW", "FILL", "ARG", "CAP")):
                             rep.oblige(ok)
                             if not ok:
                                 rep.add("ARG", name, "%s: the bytes handed to deserialize_eps are not taken from the backend at its final place inside the MemCase being built (%s)" % (name, label(a)[:120]), b.loc())
+                if e[0] == "R" and len(e) > 3 and e[2] == "B" and read_idx is None:
+                    read_idx = i
+                    copying = True
+                    ln = e[3]
+                    # read target: BASE[..file_len] (or the whole buffer)
+                    if isinstance(ln, tuple) and ln and ln[0] == "len" and isinstance(ln[1], tuple) and ln[1] and ln[1][0] == "index" \
+                            and isinstance(ln[1][2], tuple) and ln[1][2][0] == "adt" and ln[1][2][1].endswith("::RangeTo"):
+                        read_base, file_len = ln[1][1], dict(ln[1][2][3]).get(0)
+                    elif isinstance(ln, tuple) and ln and ln[0] == "len":
+                        read_base, file_len = ln[1], None
+                    else:
+                        read_base, file_len = None, ln
                 if e[0] == "Store" and is_uninit_field(e[1], bi):
                     backend_written = i
                 if e[0] == "AssumeInitUninit" or (e[0] == "Call" and e[2] == "assume_init"):
@@ -139,10 +142,20 @@ def rule_loader_paths(u, rep, want=("LEAK", "RAW", "FILL", "ARG", "CAP")):
                     rep.add("LEAK", name, "%s: a path returns %s after the backend was written into the MaybeUninit MemCase without assume_init or drop_in_place: the backing memory leaks (failing step: %s)"
                             % (name, out[0], label(failing[-1][2])[:60] if failing else "?"), b.loc())
             if "FILL" in want and read_idx is not None and deser_idx is not None:
-                ok = fill_idx is not None and read_idx < fill_idx < deser_idx
+                # every path that reads the file into the region and then deserializes zero-fills [file_len..] first
+                ok = zeroed_whole
+                for (fi, base, start) in fills:
+                    if fi > deser_idx:
+                        continue
+                    if start is None and fi < read_idx:
+                        ok = True
+                    elif start is not None and start == file_len and (read_base is None or base == read_base):
+                        ok = True
                 rep.oblige(ok)
+                rep.count("fill_paths")
                 if not ok:
-                    rep.add("FILL", name, "%s: the tail of the buffer beyond the file length is not zero-filled (fill(0) on [file_len..]) between reading the file and deserializing" % name, b.loc())
+                    rep.add("FILL", name, "%s: a path reads the file into the region and deserializes from it without zero-filling the tail [file_len..] of the same buffer first (fills seen on this path: %s)"
+                            % (name, [label(f[2])[:60] if f[2] is not None else "whole" for f in fills]), b.loc())
         rep.count("loaders_analysed")
     return len(ls)
 
@@ -481,4 +494,110 @@ def rule_uninit_exposed(u, rep, scope_files, crate="epserde"):
                     seen.add((b.n, "setlen"))
                     rep.add("UNINIT", b.n, "`%s` calls set_len on a Vec<%s> before its elements are initialised and can then fail: the elements, which may need dropping, would be dropped uninitialised" % (b.n, ty_str(T) if T else "?"), e[3])
     rep.count("set_len_sites", n)
+    return n
+
+
+def rule_maplen(u, rep):
+    """Deserialize::mmap maps the file from offset 0 for exactly its length (metadata().len(), casts aside): a longer
+    mapping is zero-extended by the kernel up to the page end, so a truncated file would deserialize; a shorter one
+    or a non-zero offset does not present the file's bytes."""
+    def strip(v):
+        while isinstance(v, tuple) and v and v[0] == "cast":
+            v = v[1]
+        return v
+    n = 0
+    for b in loaders(u):
+        if b.d.get("name") != "mmap":
+            continue
+        ip, paths = run_explicit(u, b)
+        seen = set()
+        for p in paths:
+            for e in p.events:
+                if e[0] != "Call" or e[1] != "mmap_rs":
+                    continue
+                if e[2] == "new" and ("new", e[4]) not in seen:
+                    seen.add(("new", e[4]))
+                    a = strip(e[6][0]) if e[6] else None
+                    ok = isinstance(a, tuple) and a and a[0] == "call" and a[1] == "len" and len(a[2]) == 1 and mentions(a[2][0], lambda x: len(x) > 1 and x[0] == "call" and x[1] == "metadata") \
+                        and not mentions(a[2][0], lambda x: len(x) > 0 and x[0] in ("bin", "pad"))
+                    rep.oblige(ok)
+                    n += 1
+                    if not ok:
+                        rep.add("MAPLEN", "mmap:len", "the mmap loader maps `%s` bytes rather than exactly the file length" % label(e[6][0])[:120] if e[6] else "?", e[4])
+                if e[2] == "with_file" and ("with_file", e[4]) not in seen:
+                    seen.add(("with_file", e[4]))
+                    off = e[6][2] if len(e[6]) > 2 else None
+                    ok = off == C(0)
+                    rep.oblige(ok)
+                    n += 1
+                    if not ok:
+                        rep.add("MAPLEN", "mmap:offset", "the mmap loader maps the file from offset `%s` rather than 0" % label(off)[:80], e[4])
+    rep.count("mmap_len_sites", n)
+    return n
+
+
+def rule_alloc_layout(u, rep):
+    """load_mem: the raw allocation is handed to Vec<E>::from_raw_parts (E = element type of MemBackend::Memory);
+    Vec/Box release it with Layout::array::<E>(cap), so the allocation must be made with exactly that layout:
+    align == align_of::<E>(), size == cap * size_of::<E>(), len <= cap."""
+    E = None
+    for aid, (c2, aj2) in u.adts.items():
+        if aid.endswith("::MemBackend"):
+            for v in aj2["variants"]:
+                if v["name"] == "Memory" and v["fields"]:
+                    t = c2.ty(v["fields"][0]["ty"])
+                    if t[0] == "adt" and t[1] == "alloc::boxed::Box" and t[2] and t[2][0][0] == "slice":
+                        E = t[2][0][1]
+    lay = None
+    for aid, (c3, aj3) in u.aliases.items():
+        if aid.endswith("::MemoryAlignment"):
+            l = aj3.get("layout")
+            if l is not None and E is not None and c3.raw_tys[l["norm"]]["s"].split("::")[-1] == ty_str(E).split("::")[-1]:
+                lay = l
+    if E is None or lay is None:
+        rep.add("ANCHOR", "MemBackend::Memory", "cannot determine the element type of the heap backend and its layout")
+        return 0
+    esize, ealign = lay["size"], lay["align"]
+    n = 0
+    for b in loaders(u):
+        if b.d.get("name") != "load_mem":
+            continue
+        ip, paths = run_explicit(u, b)
+        seen = set()
+        for p in paths:
+            for e in p.events:
+                if e[0] != "Call" or e[2] != "from_raw_parts" or e[1] != "alloc" or e[4] in seen:
+                    continue
+                seen.add(e[4])
+                args = e[6]
+                lays = []
+                def grab(x):
+                    if len(x) > 2 and x[0] == "call" and x[1] == "alloc" and x[2]:
+                        inner = x[2][0]
+                        if isinstance(inner, tuple) and inner and inner[0] == "tryok":
+                            inner = inner[1]
+                        if isinstance(inner, tuple) and len(inner) > 2 and inner[0] == "call" and inner[1] == "from_size_align":
+                            lays.append(inner[2])
+                    return False
+                mentions(args[0], grab)
+                n += 1
+                if not lays or len(args) != 3:
+                    rep.oblige(False)
+                    rep.add("ALLOC-LAYOUT", "load_mem:shape", "load_mem: the pointer given to Vec::from_raw_parts does not come from alloc(Layout::from_size_align(size, align)) (unknown allocation shape)", e[4])
+                    continue
+                S, A = lays[0][0], lays[0][1]
+                ln, cap = args[1], args[2]
+                ok_align = A == C(ealign)
+                ok_cap = cap == ("bin", "Div", S, C(esize)) or (esize == 1 and cap == S)
+                ok_len = ln == cap
+                # the division is exact: S = x + pad(x, K), K a multiple of size_of::<E>()
+                ok_exact = isinstance(S, tuple) and S[0] == "bin" and S[1] == "Add" and any(
+                    isinstance(q, tuple) and q and q[0] == "pad" and q[1] == o and is_c(q[2]) and q[2][1] % esize == 0 for q, o in ((S[2], S[3]), (S[3], S[2])))
+                for ok, key, msg in ((ok_align, "align", "is made with alignment `%s` but Vec<%s>/Box<[%s]> releases it with alignment %d" % (label(A)[:60], ty_str(E), ty_str(E), ealign)),
+                                     (ok_cap and ok_exact, "size", "has `%s` bytes but the vector releases capacity `%s` x %d bytes" % (label(S)[:100], label(cap)[:100], esize)),
+                                     (ok_len, "len", "is %s elements long but the vector claims %s initialised elements" % (label(cap)[:80], label(ln)[:80]))):
+                    rep.oblige(ok)
+                    if not ok:
+                        rep.add("ALLOC-LAYOUT", "load_mem:" + key, "load_mem: the heap region " + msg + ": it is not released as it was allocated", e[4])
+    rep.count("alloc_layout_sites", n)
     return n
